@@ -336,7 +336,11 @@ func TestC03(t *testing.T) {
 			return map[string]any{"scenario": "leave exhausts its retries while the successor is membership-locked", "leaver_state_afterwards": st.String()}
 		}, "scenario:leave-gave-up")
 	}
-	if p, holder, owner := joinAfterPredecessorLeft(); p != "" {
+	p, holder, owner := joinAfterPredecessorLeft()
+	for i := 0; i < 3 && len(p) > 13 && p[:13] == "precondition:"; i++ {
+		p, holder, owner = joinAfterPredecessorLeft() // the window (S has not noticed yet) is up to one check interval wide
+	}
+	if p != "" {
 		if len(p) > 13 && p[:13] == "precondition:" {
 			rec.Inconclusive("regression-schedule-precondition")
 			t.Logf("join-after-predecessor-left regression: %s", p)
